@@ -768,18 +768,16 @@ impl<'a> Machine<'a> {
                 let digest = pop_n(s, 4)?;
                 let sb: [u8; 64] = words_to_bytes(&sig).try_into().unwrap();
                 let db: [u8; 32] = words_to_bytes(&digest).try_into().unwrap();
-                let malformed = |s: &mut Vec<i64>| -> Result<Simple, ErrClass> {
-                    push_all(s, &[0; 5])?;
-                    Ok(Simple::EitherErrOr(Flow::Next))
-                };
+                // Malformed encodings (recovery id outside 0..=3, r or s not below the group order) are errors, exactly
+                // as the sign crate answers for the same bytes; only well-formed signatures from which no key can be
+                // recovered give five zero words.
                 if !(0..=3).contains(&id) {
-                    return malformed(s);
+                    return e();
                 }
                 use essential_sign::secp256k1::ecdsa::{RecoverableSignature, RecoveryId};
                 let rid = RecoveryId::try_from(id as i32).map_err(|_| ErrClass::Other)?;
                 if RecoverableSignature::from_compact(&sb, rid).is_err() {
-                    // r or s not below the group order: malformed encoding
-                    return malformed(s);
+                    return e();
                 }
                 let sig = essential_types::Signature(sb, id as u8);
                 match essential_sign::recover_hash(db, &sig) {
